@@ -83,3 +83,41 @@ pub fn count_replies(bytes: &[u8]) -> usize {
     }
     n
 }
+
+/// C11 natively: build an object store with two segments (one delta each, stamped with the given maxima)
+/// and a WAL holding one entry for key "walonly" stamped `ts`; run the real RecoveryManager::recover_with_wal
+/// and report whether that entry is among the recovered deltas.
+pub fn wal_only_entry_replayed(seg_max: [u64; 2], ts: u64) -> bool {
+    use redis_sim::redis::SDS;
+    use redis_sim::replication::lattice::{LamportClock, ReplicaId};
+    use redis_sim::replication::state::{ReplicatedValue, ReplicationDelta};
+    use redis_sim::streaming::{Compression, InMemoryObjectStore, InMemoryWalStore, Manifest, ManifestManager, ObjectStore, RecoveryManager, SegmentInfo, SegmentWriter, WalEntry, WalRotator};
+    let mk = |key: &str, t: u64, r: u64| {
+        let c = LamportClock { time: t, replica_id: ReplicaId(r) };
+        ReplicationDelta::new(key.to_string(), ReplicatedValue::with_value(SDS::from_str("v"), c), ReplicaId(r))
+    };
+    let rt = rt();
+    rt.block_on(async move {
+        let store = InMemoryObjectStore::new();
+        let mm = ManifestManager::new(store.clone(), "t");
+        let mut manifest = Manifest::new(1);
+        for (i, mx) in seg_max.iter().enumerate() {
+            let mut w = SegmentWriter::new(Compression::None);
+            w.write_delta(&mk(if i == 0 { "s0" } else { "s1" }, *mx, 1)).unwrap();
+            let data = w.finish().unwrap();
+            let key = format!("t/segments/segment-{:08}.seg", i);
+            let size = data.len() as u64;
+            store.put(&key, &data).await.unwrap();
+            manifest.add_segment(SegmentInfo { id: i as u64, key, record_count: 1, size_bytes: size, min_timestamp: *mx, max_timestamp: *mx });
+        }
+        mm.save(&manifest).await.unwrap();
+        let ws = InMemoryWalStore::new();
+        let mut rot = WalRotator::new(ws.clone(), 1 << 20).unwrap();
+        rot.append(&WalEntry::from_delta(&mk("walonly", ts, 2), ts).unwrap()).unwrap();
+        rot.sync().unwrap();
+        let reader = WalRotator::new(ws, 1 << 20).unwrap();
+        let rec = RecoveryManager::new(store, "t", 1);
+        let r = rec.recover_with_wal(&reader).await.unwrap();
+        r.deltas.iter().any(|d| d.key == "walonly")
+    })
+}
